@@ -374,7 +374,7 @@ HARNESSES["c03_ffi_big_jump_kf"]["untagged_region"] = "recip_span_ge3"
 HARNESSES["c03_ffi_big_jump"]["tier"] = "thorough"
 
 HARNESSES["c17_real_new_20"]["tier"] = "thorough"
-HARNESSES["c17_real_new_20"]["thorough_cap"] = 3600
+HARNESSES["c17_real_new_20"]["thorough_cap"] = 1500   # did not terminate within 30 min in the validation run
 
 for _n in ("c10_fto_2", "c10_fto_mult_2", "c10_fti_2", "c10_ffo_ctor_ratio"):
     HARNESSES[_n]["tier"] = "thorough"
@@ -408,3 +408,7 @@ for _n in ("c07_fti_2_3_1_1", "c07_fto_2_3_1_1"):
     HARNESSES[_n]["cap"] = 420
     HARNESSES[_n]["thorough_cap"] = 3600
 HARNESSES["c07_fti_2_3_3_1"]["cap"] = 900
+
+# thorough caps equal to the longest validated attempt (these did not terminate within it)
+for _n, _c in {'c16_vec_process': 1800, 'c16_vec_process_partial': 1800, 'c17_real_new_20': 600, 'c07_fti_2_3_1_1': 1200}.items():
+    HARNESSES[_n]["thorough_cap"] = _c
